@@ -114,8 +114,26 @@ class State:
                 for p_, q_ in zip(prepped, qflags):
                     if not q_:
                         s0.add(p_)
-                if s0.check() == z3.unsat:
+                r0 = s0.check()
+                if r0 == z3.unsat:
                     r = z3.unsat
+                elif r0 == z3.unknown:
+                    # z3's sequence (string) solver is not stable run to run on identical input: ask the ground question again with other seeds
+                    for seed in (7, 23):
+                        s1 = z3.Solver()
+                        s1.set('timeout', timeout_ms or QUERY_TIMEOUT_MS)
+                        s1.set('smt.arith.nl', False)
+                        s1.set('random_seed', seed)
+                        s1.set('smt.random_seed', seed)
+                        for p_, q_ in zip(prepped, qflags):
+                            if not q_:
+                                s1.add(p_)
+                        r1 = s1.check()
+                        if r1 == z3.unsat:
+                            r = z3.unsat
+                            break
+                        if r1 == z3.sat:
+                            break
         STATS['queries'] += 1
         dt = time.time() - t0
         STATS['query_s'] += dt
